@@ -1,21 +1,37 @@
 package verifapi
 
-// Identity alphabets. Node ids are 128 hex characters (as real enode ids),
-// wallets are 42-character addresses; they are only compared for equality by
-// the code under test (DESIGN 3.5).
+// Identity alphabets. They are the real node ids / wallet addresses of the
+// repo's hard-coded test keys (internal/keygen: keys 0-4 are nodes, keys 5-7
+// wallets), so that the native replay can produce real signatures. The code
+// under test only compares them for equality (DESIGN 3.5).
 
 var nodeIDs = []string{
-	"a0a0a0a0a0a0a0a0a0a0a0a0a0a0a0a0a0a0a0a0a0a0a0a0a0a0a0a0a0a0a0a0a0a0a0a0a0a0a0a0a0a0a0a0a0a0a0a0a0a0a0a0a0a0a0a0a0a0a0a0a0a0a0a0",
-	"b1b1b1b1b1b1b1b1b1b1b1b1b1b1b1b1b1b1b1b1b1b1b1b1b1b1b1b1b1b1b1b1b1b1b1b1b1b1b1b1b1b1b1b1b1b1b1b1b1b1b1b1b1b1b1b1b1b1b1b1b1b1b1b1",
-	"c2c2c2c2c2c2c2c2c2c2c2c2c2c2c2c2c2c2c2c2c2c2c2c2c2c2c2c2c2c2c2c2c2c2c2c2c2c2c2c2c2c2c2c2c2c2c2c2c2c2c2c2c2c2c2c2c2c2c2c2c2c2c2c2",
-	"d3d3d3d3d3d3d3d3d3d3d3d3d3d3d3d3d3d3d3d3d3d3d3d3d3d3d3d3d3d3d3d3d3d3d3d3d3d3d3d3d3d3d3d3d3d3d3d3d3d3d3d3d3d3d3d3d3d3d3d3d3d3d3d3",
-	"e4e4e4e4e4e4e4e4e4e4e4e4e4e4e4e4e4e4e4e4e4e4e4e4e4e4e4e4e4e4e4e4e4e4e4e4e4e4e4e4e4e4e4e4e4e4e4e4e4e4e4e4e4e4e4e4e4e4e4e4e4e4e4e4",
+	"bf0de96f25b57201cf1d408d05add7722175c372ce56ec0b67f710059cc53d9ea0343446f7ec625c796a548c82bcf08308304c9fbf097bf92257e06fc7c60915",
+	"066897a94b47f425d69d7352219c495b540a9759ad21d479c4a4d8b53f3a0937e33abe2f98b7342f52f7feadce9330fceca85345a1649c748e8da2b6fde9da31",
+	"87bf7f37d6ab51c5b09131d13904230aaae6357cdbbf04fd525cfd7025d519439572ba3f6b2d45597b4499fcf7e8b8573f6b0f5b24e25d09aaa217869481c824",
+	"797b6c7dfd26297eac87b8302dffab8c47547a08f17270514fe9819546e35a2ea4e2b16fc305da888201e8766bbef0645cda6ca34a799bb2447305483a74b4d7",
+	"a886db76a7692f28399d7bbd5464142f81e11227f6afc4c3bb001409df7b012e7677175f20c28300b39cf6193b9bac1bdde4955c91c5c771029efd5259966e5d",
 }
 
 var wallets = []string{
-	"0x1111111111111111111111111111111111111111",
-	"0x2222222222222222222222222222222222222222",
-	"0x3333333333333333333333333333333333333333",
+	"0x08ba7E452E622c10977f7aEd576B8095cF28f916",
+	"0x0E3Db36BE702772D756CDe1cE89b222F3f2Bb59f",
+	"0xD88b186e98972c87DFF0507f7CD8Da8dbEbb8764",
+}
+
+// KeyIndex returns the internal/keygen key index of an identity (-1 if unknown).
+func KeyIndex(identity string) int {
+	for i, n := range nodeIDs {
+		if n == identity {
+			return i
+		}
+	}
+	for i, w := range wallets {
+		if w == identity {
+			return 5 + i
+		}
+	}
+	return -1
 }
 
 // NodeID returns the i-th node identity of the alphabet.
